@@ -16,12 +16,12 @@ CLAIMS = {
  "C04": dict(
   category="proof", design_ref="DESIGN.md section 3 (C04)",
   technique=TECH + "loop invariants (cursor triple) on the three printers under goto-instrument --apply-loop-contracts with an snprintf contract stub; bounded unwinding for the parsers",
-  text="hwloc_bitmap_snprintf, _list_snprintf and _taskset_snprintf satisfy the snprintf contract for every bitmap (any content, <= 64 stored words, both tails) and every buffer 0..64 bytes or NULL/0: nothing written outside [buf,buf+buflen) (guarded arena + bounds checks), NUL-terminated when buflen>0, return value = sum of the untruncated piece lengths, loops terminate (decreases) -- loops closed by invariants, not unwound. The three asprintf variants are memory safe over both passes and return a length with a string or -1 (<= 8 words). hwloc_bitmap_sscanf and _taskset_sscanf on an arbitrary NUL-terminated string of <= 6 bytes return 0/-1 without out-of-bounds access or failed assertion and keep the representation invariant (bounded stand-in, labelled so). Not decided: the print/parse round trip and that asprintf and snprintf produce the same text (both need the text content, which the snprintf contract abstracts), hwloc_bitmap_list_sscanf (the runs did not fit in memory).",
+  text="hwloc_bitmap_snprintf, _list_snprintf and _taskset_snprintf satisfy the snprintf contract for every bitmap (any content, <= 64 stored words, both tails) and every buffer 0..64 bytes or NULL/0: nothing written outside [buf,buf+buflen) (guarded arena + bounds checks), NUL-terminated when buflen>0, return value = sum of the untruncated piece lengths, loops terminate (decreases) -- loops closed by invariants, not unwound. The three asprintf variants are memory safe over both passes and return a length with a string or -1 (<= 8 words). hwloc_bitmap_sscanf and _taskset_sscanf on an arbitrary NUL-terminated string of <= 6 bytes (allocated with its exact size, so that a read past the NUL is a refuted pointer check) return 0/-1 without out-of-bounds access or failed assertion and keep the representation invariant (bounded stand-in, labelled so). Not decided: the print/parse round trip and that asprintf and snprintf produce the same text (both need the text content, which the snprintf contract abstracts), hwloc_bitmap_list_sscanf (the runs did not fit in memory).",
   note="Trusted: snprintf (C99 contract stub, pieces <= 24 chars), strtoul (end pointer inside the string, value arbitrary), abstract realloc; parsers are bounded (strings <= 6 bytes, unwind 9)."),
  "C11": dict(
   category="proof", design_ref="DESIGN.md section 3 (C11)",
   technique=TECH + "loop invariants (cursor triple) under goto-instrument --apply-loop-contracts with an snprintf contract stub; loop-free full-domain harness for hwloc_compare_types",
-  text="hwloc_obj_type_snprintf (all type values, attribute contents, flag words), its OS-device helpers (all type words, any names table) and hwloc_obj_attr_snprintf satisfy the snprintf contract: nothing is written outside [buf,buf+size) (guarded arena + bounds checks), NUL-terminated when size>0, NULL/0 accepted, the return value is the sum of the pieces' untruncated lengths, and the loops terminate (decreases clauses). hwloc_compare_types is antisymmetric, transitive, Machine highest, PU deepest, consistent with the documented kinds, exactly one kind per type, order tables are inverse permutations: all type triples. Bounded stand-in: hwloc_type_sscanf on an arbitrary NUL-terminated string of <= 4 bytes returns 0/-1 without out-of-bounds access and accepted strings give a valid type. Not decided: the print-then-parse round trip.",
+  text="hwloc_obj_type_snprintf (all type values, attribute contents, flag words), its OS-device helpers (all type words, any names table) and hwloc_obj_attr_snprintf satisfy the snprintf contract: nothing is written outside [buf,buf+size) (guarded arena + bounds checks), NUL-terminated when size>0, NULL/0 accepted, the return value is the sum of the pieces' untruncated lengths, and the loops terminate (decreases clauses). hwloc_compare_types is antisymmetric, transitive, Machine highest, PU deepest, consistent with the documented kinds, exactly one kind per type, order tables are inverse permutations: all type triples. Print/parse round trip, finite part (concrete texts, complete): for each of the 7 OS-device type bits the short and the long name the printers use, alone and as the tail of a printed OS[...] text, parse back to exactly that bit, and hwloc_type_sscanf(hwloc_obj_type_string(t)) gives t back for every object type t. Bounded stand-in: hwloc_type_sscanf on an arbitrary NUL-terminated string of <= 4 bytes returns 0/-1 without out-of-bounds access, accepted strings give a valid type and cache types carry the depth and cache type matching the type. Not decided: the round trip of the attribute part of printed texts (cache/group depth digits, several OS-device names in one text).",
   note="Trusted: snprintf replaced by its C99 contract (stub); buffers 0..64 bytes, <= 8 info pairs with strings <= 3 chars; the OS-device names table is arbitrary in the proofs (statics are nondeterministic under loop-contract instrumentation)."),
  "C10": dict(
   category="proof", design_ref="DESIGN.md section 3 (C10)",
@@ -36,13 +36,13 @@ CLAIMS = {
  "C06": dict(
   category="other", design_ref="DESIGN.md section 3 (C06)",
   technique=TECH + "bounded plain harnesses on the real in-place scanners of topology-xml-nolibxml.c",
-  text="ONE LEAF ONLY, BOUNDED: the four in-place scanners every byte of a nolibxml import goes through first (hwloc__nolibxml_import_next_attr, _find_child, _close_tag, _get_content/_close_content) on an ARBITRARY 7-byte buffer plus terminating NUL (the shape backend_init allocates), with their cursors anywhere inside it: every read and write stays inside the buffer, the functions return -1/0/1, and every cursor and returned pointer stays inside the buffer; find_child guarantees, and next_attr assumes, that an attribute text ends before the final byte. The property itself (any XML never corrupts memory, hangs or yields a broken topology; libxml backend; diff XML) needs the whole import over an unbounded tree and is not decided by this technique.",
+  text="ONE LEAF ONLY, BOUNDED: the four in-place scanners every byte of a nolibxml import goes through first (hwloc__nolibxml_import_next_attr, _find_child, _close_tag, _get_content/_close_content) on an ARBITRARY 7-byte buffer plus terminating NUL (the shape backend_init allocates), with their cursors anywhere inside it: every read and write stays inside the buffer, the functions return -1/0/1, and every cursor and returned pointer stays inside the buffer; find_child guarantees, and next_attr assumes, that an attribute text ends before the final byte; hwloc_nolibxml_look_init on the document heads '<topology version=\"2.0\"', '<topology', '<roo', an XML declaration line or nothing, followed by 4 arbitrary bytes, returns 0/-1 and leaves its tag cursor inside the buffer (sscanf model for the one format it uses). The property itself (any XML never corrupts memory, hangs or yields a broken topology; libxml backend; diff XML) needs the whole import over an unbounded tree and is not decided by this technique.",
   note="Trusted: strspn model, cbmc's strchr/strcmp/strncmp/strlen models; bounded (buffer 7+1 bytes, unwind 40; thorough tier 10+1)."),
  "C13": dict(
   category="proof", design_ref="DESIGN.md section 3 (C13)",
-  technique=TECH + "DFCC frame contract on hwloc_distances_add_create (rejection prefix)",
-  text="ONE CLAUSE ONLY: hwloc_distances_add_create rejects every kind word (all 2^64) that has unknown bits, more than one FROM_ bit or more than one MEANS_ bit with NULL/EINVAL, and an adopted topology with NULL/EPERM, assigning nothing but errno and never reaching the backend that would create the handle (so the list of distances is unchanged). Everything else in C13 (what is added is what is returned, filters, *nr, restrict/dup/XML, grouping, transforms) is not decided.",
-  note="Trusted: cbmc's __builtin_popcountll for hwloc_weight_long."),
+  technique=TECH + "DFCC frame contract on hwloc_distances_add_create (proof); bounded plain harnesses on the real distances.c for the transforms, refresh_one, the get filters, removals and the add path",
+  text="Proved (all 2^64 kind words): hwloc_distances_add_create rejects every kind word with unknown bits, several FROM_ or several MEANS_ bits with NULL/EINVAL and an adopted topology with NULL/EPERM, assigning nothing but errno and never reaching the backend. BOUNDED stand-ins (labelled so, not counted as proved; matrices of exactly 2/3/4 objects, lists of <= 3 structures, loops unwound): the four local transforms (REMOVE_NULL, LINKS, MERGE_SWITCH_PORTS, TRANSITIVE_CLOSURE) and their dispatcher keep every non-switch object and the values between them and leave the structure untouched on refusal; hwloc_internal_distances_refresh_one re-resolves every object and keeps the exact sub-matrix of the survivors (dropped when fewer than 2 survive); hwloc_distances_get / _by_type / _by_name / _by_depth report *nr = number of matches even when the array is smaller and fill private copies in list order under exactly the documented filters; remove / remove_by_depth / release_remove delete exactly the targeted structures and keep the list links consistent; add_create + add_values + add_commit refuse invalid kinds / flags / NULL objects / fewer than 2 objects leaving the list unchanged and otherwise append a private copy with a fresh id and the caller's kind (+HETEROGENEOUS_TYPES iff types differ). Not decided: grouping at commit, restrict/dup/XML/shmem interleavings through the real tree (a count-only get after a restrict, id reuse after remove-all are histories outside these harnesses).",
+  note="Trusted: object look-ups of refresh_one are table stubs (the real ones walk the tree: C09), hwloc__reconnect is a no-op stub, grouping switched off; cbmc's strcmp/strdup/memcpy models; LINKS only for bounded values (64-bit division)."),
  "C16": dict(
   category="proof", design_ref="DESIGN.md section 3 (C16)",
   technique=TECH + "DFCC contracts on hwloc_topology_diff_apply: frame contract for the rejection prefix; per-entry application replaced by a logging contract for the -N / roll-back clause",
@@ -56,13 +56,18 @@ CLAIMS = {
  "C15": dict(
   category="other", design_ref="DESIGN.md section 3 (C15)",
   technique=TECH + "bounded: plain harnesses on the real cpukinds.c with the bitmap dependency replaced by exact set operations on an 8-PU universe, loops unwound",
-  text="BOUNDED stand-in (not counted as proved): hwloc_internal_cpukinds_register keeps the kinds a partition -- non-empty, pairwise disjoint, distinct cpuset objects, union = previous union plus the registered set, at most 2N+1 kinds inside the allocated array -- from every state with N <= 3 kinds satisfying that invariant, for every new cpuset, efficiency and flag word; empty cpuset / unknown flags give EINVAL and change nothing. hwloc_cpukinds_get_by_cpuset returns the index of the kind containing the set, EXDEV iff the set straddles kinds or is partly covered, ENOENT iff it touches none, EINVAL for flags/NULL/empty. The universe has one PU per Venn region of 3 disjoint kinds and a new set, so every emptiness pattern the code can distinguish is covered. Not decided: info accumulation, ranking/efficiencies, restrict/dup/XML interleavings, the public wrapper hwloc_cpukinds_register.",
-  note="Trusted: the 8-PU executable model of and/andnot/iszero/compare_inclusion/alloc/free (the real ones are verified under C03); bounded in the number of kinds (<= 3) and unwinding 8; allocation failures of hwloc_bitmap_alloc are not modelled."),
+  text="BOUNDED stand-in (not counted as proved): hwloc_internal_cpukinds_register keeps the kinds a partition -- non-empty, pairwise disjoint, distinct cpuset objects, union = previous union plus the registered set, at most 2N+1 kinds inside the allocated array, unused slots carry no infos -- from every state with N <= 3 kinds satisfying that invariant, for every new cpuset, efficiency and flag word; empty cpuset / unknown flags give EINVAL and change nothing. hwloc_cpukinds_get_by_cpuset returns the index of the kind containing the set, EXDEV iff the set straddles kinds or is partly covered, ENOENT iff it touches none, EINVAL for flags/NULL/empty. hwloc_internal_cpukinds_restrict intersects every kind with the topology cpuset, removes emptied kinds, keeps order / cpuset objects / infos of the survivors and re-establishes the representation invariant register relies on (<= 3 kinds with <= 2 info pairs). The universe has one PU per Venn region of 3 disjoint kinds and a new set, so every emptiness pattern the code can distinguish is covered. Not decided: info accumulation across registrations, ranking/efficiencies (the ranking after a removal is cut out), dup/XML interleavings, the public wrapper hwloc_cpukinds_register.",
+  note="Trusted: the 8-PU executable model of and/andnot/iszero/compare_inclusion/alloc/free (the real ones are verified under C03); bounded in the number of kinds (<= 3) and unwinding 9; allocation failures of hwloc_bitmap_alloc are not modelled; hwloc_internal_cpukinds_rank's body removed in the restrict job (assumed to write efficiencies only)."),
  "C19": dict(
   category="proof", design_ref="DESIGN.md section 3 (C19)",
-  technique=TECH + "DFCC frame contracts assigns(errno) on the guarded entry points of topology.c / distances.c / diff.c; callees after the guard replaced by never-called contracts",
-  text="On an adopted (shared-memory) topology each of the nine guarded structure-modifying entry points (alloc/free/insert group object, insert misc object, restrict, distances remove / remove_by_depth / add_create, diff_apply) returns its error value with errno EPERM (insert_misc: or EINVAL when Misc is filtered out) and assigns nothing but errno: the frame condition is checked by DFCC on every store, and the callees behind the guard are proved unreachable. Not decided: that get_length suffices for write, adopt's header validation and equality of the adopted copy, allow() on an adopted topology, modifying entry points that have no guard (memattrs, cpukinds, infos).",
-  note="Trusted: abstract bitmap model for the restrict prefix; assumed contract of hwloc_free_unlinked_object in insert_group_object."),
+  technique=TECH + "DFCC frame contracts assigns(errno) on the guarded entry points of topology.c / distances.c / diff.c (callees after the guard replaced by never-called contracts); loop-free plain harnesses on the real shmem.c",
+  text="On an adopted (shared-memory) topology each of the nine guarded structure-modifying entry points (alloc/free/insert group object, insert misc object, restrict, distances remove / remove_by_depth / add_create, diff_apply) returns its error value with errno EPERM (insert_misc: or EINVAL when Misc is filtered out) and assigns nothing but errno: the frame condition is checked by DFCC on every store, and the callees behind the guard are proved unreachable. shmem.c (loop-free, complete for the stated request sequences): both allocator passes advance by the same 8-rounded amount for every request size; hwloc_shmem_topology_get_length is a page multiple covering the padded header plus every rounded block and rejects flags; hwloc_shmem_topology_write with that length keeps every block inside the mapping, maps (address,length), turns another address into EBUSY + munmap and refreshes the copy it wrote (not the source); hwloc_shmem_topology_adopt rejects unknown flags and any version / header length / address / length mismatch with EINVAL before mapping, maps PROT_READ, and turns another address into EBUSY + munmap. Not decided: equality of the adopted copy (dup over the tree), allow() on an adopted topology, modifying entry points that have no guard (memattrs, cpukinds, infos, release_remove), calloc zeroing of the shmem allocator.",
+  note="Trusted: abstract bitmap model for the restrict prefix; assumed contract of hwloc_free_unlinked_object in insert_group_object; hwloc__topology_dup replaced by its allocation contract (same request sequence in both passes: assumed); system calls are nondeterministic stubs."),
+ "C07": dict(
+  category="proof", design_ref="DESIGN.md section 3 (C07)",
+  technique=TECH + "loop-free full-domain harnesses for the two cursor steps of the synthetic exporter (the induction step of its snprintf contract); assume-guarantee chain of snprintf-style contracts over indexes / obj_attr / obj / memory_children / export_synthetic on explicit small object graphs; bounded harnesses for the parser helpers and structured descriptions up to the maximal depth",
+  text="Export side. Proved (loop-free, all values, buffers 0..64): hwloc__export_synthetic_update_status and _add_char -- the only code that moves the exporter's cursor -- preserve the cursor invariant (0 <= remaining <= buflen, cursor == buffer + (buflen - remaining), remaining >= 1 whenever buflen > 0), add exactly the piece length / one to the would-be length and write only inside the remaining space: the induction step of 'hwloc_topology_export_synthetic obeys the snprintf length contract' for exports of any size. BOUNDED stand-ins (explicit small object graphs, loops unwound): hwloc__export_synthetic_indexes (levels of 1..4 objects, arbitrary os_index), _obj_attr, _obj, _memory_children (0..2 memory children, with memory-side caches, v1 and v2) and hwloc_topology_export_synthetic (Machine -> [level] -> 2 PUs) each satisfy the snprintf-style contract (nothing outside [buffer,buffer+buflen), NUL-terminated, return value = sum of the pieces + separators, EINVAL clauses) with every callee replaced by the contract it is itself checked against. Import side, BOUNDED: hwloc_synthetic_parse_memory_attr and hwloc_synthetic_parse_attrs on arbitrary strings of <= 5/6 bytes are memory safe and leave their cursors inside the string; hwloc_backend_synthetic_init on structured descriptions (typed and untyped levels, attached NUMA nodes, 1..127 levels) is memory safe, returns 0/-1 and an accepted description leaves a level table hwloc__look_synthetic can build (valid normal/NUMA types, PU last, cache depths); hwloc_synthetic_process_indexes on arbitrary index texts is memory safe. Not decided: hwloc__look_synthetic (object creation through the core), faithfulness of the built tree, the export/import round trip.",
+  note="Trusted: snprintf C99 contract stub; hwloc_type_sscanf / hwloc_obj_type_snprintf / hwloc_obj_type_string contract stubs (the first two are checked under C11); strtoul-family stubs; getenv -> NULL; memmove as an element-wise copy of level entries; concrete shapes per job."),
  "C08": dict(
   category="proof", design_ref="DESIGN.md section 3 (C08/C02)",
   technique=TECH + "DFCC frame contract on hwloc_topology_restrict (error paths)",
@@ -77,7 +82,6 @@ CLAIMS = {
 
 NOT_APPLICABLE = {
  "C01": "global well-formedness of an unbounded, cyclically linked object tree produced by hwloc_topology_load through backends, files and ~3000 lines of insertion code: neither the state predicate (no inductive heap predicates in CBMC contracts) nor load as a contract subject is expressible (DESIGN.md section 6)",
- "C07": "synthetic parser/builder over strings up to 128 levels with strtoul/strchr cursors: invariants for the 390-line parser loop are out of budget (DESIGN.md section 6)",
  "C09": "every helper walks first_child/next_sibling/parent links of an unbounded tree and its spec quantifies over all objects; only the bitmap primitives are covered (C03)",
  "C12": "deep copy and absence of sharing over the whole heap; no ghost heap / separation predicates in CBMC contracts",
  "C17": "thread-safety: CBMC code contracts have no concurrency semantics",
